@@ -695,7 +695,8 @@ func runOverlapRound(sp stressSpec, round int, out *stressOut) {
 					lastOp[w][id] = 0
 				}
 			}
-			plans[w] = append(plans[w], corpus.Batch{Ops: ops})
+			// a single operation is often issued through Index / Delete directly
+			plans[w] = append(plans[w], corpus.Batch{Ops: ops, Direct: len(ops) == 1 && g.Chance(2, 3)})
 		}
 	}
 	d := mon.New()
@@ -757,6 +758,30 @@ func runOverlapRound(sp stressSpec, round int, out *stressOut) {
 				}
 				seen[h.ID] = true
 			}
+			// one index reader: its DocCount and the ids it enumerates belong to one state
+			if adv, err := idx.Advanced(); err == nil {
+				if rd, err := adv.Reader(); err == nil {
+					n, _ := rd.DocCount()
+					cnt := uint64(0)
+					if dr, err := rd.DocIDReaderAll(); err == nil {
+						for {
+							iid, err := dr.Next()
+							if err != nil || iid == nil {
+								break
+							}
+							cnt++
+						}
+						dr.Close()
+					}
+					rd.Close()
+					if n != cnt {
+						emu.Lock()
+						errs = append(errs, fmt.Sprintf("READER:DocCount()=%d but the same reader enumerates %d documents", n, cnt))
+						emu.Unlock()
+						return
+					}
+				}
+			}
 		}
 	}()
 	close(start)
@@ -771,6 +796,8 @@ func runOverlapRound(sp stressSpec, round int, out *stressOut) {
 	for _, e := range errs {
 		if strings.HasPrefix(e, "DUP:") {
 			problem("overlap/duplicate-hit", "match_all returned id "+e[4:]+" twice while writers were racing on it")
+		} else if strings.HasPrefix(e, "READER:") {
+			problem("reader-internal-disagreement", e[7:])
 		} else {
 			problem("overlap/error", e)
 		}
